@@ -49,7 +49,11 @@ class TransitWB(TransitStream):
                          "sdk/zzverif/vh/vh.go": "vh/vh.go"}}
     testname = "TestVerifC17Endpoints"
     rule = ("the same generator driving the real transit backend through Backend.HandleRequest (keys/<name>, /config, /trim, "
-            "/rotate, encrypt, decrypt, rewrap, sign, verify, hmac, verify/<hmac>, backup, restore, delete)")
+            "/rotate, encrypt, decrypt, rewrap, sign, verify, hmac, verify/<hmac>, backup, restore, delete), plus batch_input "
+            "requests to encrypt / decrypt / rewrap with 1-5 items mixing key_version, context, associated_data, version "
+            "and body rewrites per item, items with errors, and the with/without-associated-data neighbour pattern; the "
+            "model answers a batch as the per-item map of the single requests (or the whole-request refusal), the direct "
+            "predicate is applied to every item")
 
 
 class TransitWBFaults(TransitStream):
@@ -69,7 +73,8 @@ class C17(PropCheck):
                   "guards) with symbolic AEAD/signature/HMAC terms, all quantified over every fault-free operation history of "
                   "any length: archive_invariant, no_panic, roundtrip, rewrap_roundtrip, binds_inputs, "
                   "encrypt_respects_min_enc, old_versions_until_min_raised (iff, along any later ring-keeping history), "
-                  "convergent_deterministic, sign_verify_sound/iff, hmac_verify_sound/iff, atoi_itoa; "
+                  "convergent_deterministic, sign_verify_sound/iff, hmac_verify_sound/iff, atoi_itoa, batch_is_pointwise with "
+                  "batch_decrypt_binds and batch_roundtrip (batch_input requests are the per-item map of the single request); "
                   "old_versions_under_faults extends it to histories with failing storage Puts inside any endpoint operation "
                   "incl. failing restores (true since the repairs of F38 and F39, transactional storage assumed), "
                   "old_versions_under_faults_bare_restore_cex proves it false for the bare library call of RestorePolicy "
